@@ -26,7 +26,7 @@ def Pre (F : RunIdFacts) (σ : St) : Prop := σ.watching = true → PreS F σ
 theorem gcanc_iff (F : RunIdFacts) (g : G) : g.canc F = true ↔
     (g.stack.all (fun fr => fr.pc.canc F && fr.cur) = true ∧
      (∀ k r, g.blocked = some (k, r) → r = true) ∧
-     (∀ pd, g.pending = some pd → pd.body.canc F = true ∧ childCur F pd.site pd.pcur true = true)) := by
+     (∀ pd, g.pending = some pd → pd.body.canc F = true ∧ childCur F pd.site pd.pcur true true = true)) := by
   obtain ⟨stack, armed, blocked, ops, ticks, main, pending⟩ := g
   cases blocked with
   | none => cases pending with
@@ -68,7 +68,7 @@ theorem stepG_pre (F : RunIdFacts) (σ : St) (g : G) (hl : ∀ e ∈ σ.runList,
         simp only [stepG, execOp]
         exact ⟨⟨(gcanc_iff F _).mpr ⟨rfl, (fun _ _ h => nomatch h), hpend⟩, by simp⟩, by simp, hl, hrc⟩
       | cons fr rest =>
-        obtain ⟨fid, pc, fcur⟩ := fr
+        obtain ⟨fid, pc, fcur, fearly⟩ := fr
         simp only [List.all_cons, Bool.and_eq_true] at hall
         obtain ⟨⟨hpc, hfc⟩, hrc'⟩ := hall
         subst hfc
@@ -90,7 +90,7 @@ theorem stepG_pre (F : RunIdFacts) (σ : St) (g : G) (hl : ∀ e ∈ σ.runList,
           exact ⟨mk _ _ _ (by simp [hpc, hrc']), by simp, hl, hrc⟩
         | call s body p =>
           simp only [stepG, execOp]; simp only [Prog.canc, Bool.and_eq_true] at hpc
-          exact ⟨mk _ _ _ (by simp [hpc.1.1, hpc.1.2, hpc.2, hrc', hrc]), by simp, hl, hrc⟩
+          exact ⟨mk _ _ _ (by simp [hpc.1.1, hpc.1.2, hpc.2, hrc', hrc, hcn]), by simp, hl, hrc⟩
         | spawn ss body p =>
           simp only [stepG, execOp]; simp only [Prog.canc, Bool.and_eq_true] at hpc
           refine ⟨mk _ _ _ (by simp [hpc.2, hrc']), ?_, hl, hrc⟩
@@ -112,7 +112,7 @@ theorem stepG_pre (F : RunIdFacts) (σ : St) (g : G) (hl : ∀ e ∈ σ.runList,
       | some pd =>
         obtain ⟨hb, hc⟩ := hpend pd rfl
         simp only [stepG, advance]
-        refine ⟨⟨(gcanc_iff F _).mpr ⟨by simp [hb, hrc, hc], (fun _ _ h => nomatch h), (fun _ h => nomatch h)⟩, by simp⟩, by simp, hl, hrc⟩
+        refine ⟨⟨(gcanc_iff F _).mpr ⟨by simp [hb, hrc, hc, hcn], (fun _ _ h => nomatch h), (fun _ h => nomatch h)⟩, by simp⟩, by simp, hl, hrc⟩
       | none =>
         have mk : ∀ (st : List Frame), st.all (fun fr => fr.pc.canc F && fr.cur) = true →
             PreG F { stack := st, armed := false, blocked := none, ops := ops, ticks := ticks, main := main, pending := none } :=
@@ -134,13 +134,13 @@ theorem stepG_pre (F : RunIdFacts) (σ : St) (g : G) (hl : ∀ e ∈ σ.runList,
                 rw [key]
                 exact ⟨mk _ rfl, by simp, by simp, hrc⟩
               · have key : stepG F σ { stack := [], armed := false, blocked := none, ops := ops, ticks := ticks, main := true, pending := none } =
-                    ⟨{ stack := [⟨if e.root then σ.rootId else newId F.entryId σ.rootId σ.id σ.rootId, e.prog, true⟩], armed := false,
+                    ⟨{ stack := [⟨if e.root then σ.rootId else newId F.entryId σ.rootId σ.id σ.rootId false, e.prog, true, false⟩], armed := false,
                        blocked := none, ops := ops, ticks := ticks, main := true, pending := none }, [], es, true⟩ := by
                   simp [stepG, advance, hrl, hx, hcn, hrc]
                 rw [key]
                 exact ⟨mk _ (by simp [he]), by simp, hes, rfl⟩
         | cons fr rest =>
-          obtain ⟨fid, pc, fcur⟩ := fr
+          obtain ⟨fid, pc, fcur, fearly⟩ := fr
           have hall' := hall
           simp only [List.all_cons, Bool.and_eq_true] at hall'
           by_cases hg : guardOk F fid σ.id = true
@@ -236,19 +236,29 @@ theorem pre_start (F : RunIdFacts) (id rootId : Nat) (entries : List Entry) (h :
 theorem dead_of_stop {F : RunIdFacts} (hF : Sound F) (σ : St) (hi : Inv σ) (hm : MainOk σ) (hp : Pre F σ)
     (hw : σ.watching = true) (hdom : ∀ g ∈ σ.gs, g.fvPending F = false) : Dead F (stepStop F σ) := by
   have hps := hp hw
-  simp only [stepStop, hw, if_true, hF.wstops, hF.bumps, hF.closes, Bool.and_self, Bool.or_true]
-  refine ⟨rfl, ⟨hm.main0, hm.has⟩, ?_, Or.inl (Nat.lt_succ_of_le hi.root)⟩
+  simp only [stepStop, hw, if_true, hF.wstops, hF.bumps, hF.closes, hF.marks, hF.plumbing, Bool.and_self, Bool.or_true]
+  refine ⟨rfl, rfl, ⟨hm.main0, hm.has⟩, ?_, Nat.lt_succ_of_le hi.root⟩
   intro g hg
   obtain ⟨hle, hlp⟩ := hi.frames g hg
   have hpg := hps.gs g hg
   obtain ⟨hall, hrel, hpend⟩ := (gcanc_iff F g).mp hpg.canc
   have hfv := hdom g hg
   simp only [G.fvPending, Bool.or_eq_false_iff] at hfv
+  have split : ∀ (s : Site) (e : Bool), (fvSite F s && childEarly s e) = false →
+      F.site s = .parent ∨ (F.site s = .epoch ∧ childEarly s e = false) := by
+    intro s e h
+    rcases hF.site s with h1 | h1
+    · exact Or.inl h1
+    · right
+      refine ⟨h1, ?_⟩
+      simpa [fvSite, h1] using h
   refine ⟨fun fr hfr => Nat.lt_succ_of_le (hle fr hfr), ?_, hrel, hpg.wf, ?_⟩
   · intro pd hpd
     have h1 := hfv.1
-    simp only [hpd, fvSite, bne_eq_false_iff_eq] at h1
-    exact ⟨h1, Nat.lt_succ_of_le (hlp pd hpd)⟩
+    simp only [hpd] at h1
+    rcases split pd.site pd.pearly h1 with h2 | h2
+    · exact Or.inl ⟨h2, Nat.lt_succ_of_le (hlp pd hpd)⟩
+    · exact Or.inr h2
   · intro ha fr rest hst
     have h2 := hfv.2
     simp only [ha, hst, Bool.true_and] at h2
@@ -258,11 +268,15 @@ theorem dead_of_stop {F : RunIdFacts} (hF : Sound F) (σ : St) (hi : Inv σ) (hm
     simp only [Bool.and_eq_true] at hfr
     refine ⟨hfr.2, hfr.1, ?_, ?_⟩
     · intro s b p hpc
-      simp only [hpc, fvSite, Bool.and_eq_false_iff, bne_eq_false_iff_eq, Bool.not_eq_false'] at h2
-      exact h2
+      simp only [hpc] at h2
+      rcases split s fr.early h2 with h3 | h3
+      · exact Or.inl h3
+      · exact Or.inr h3.2
     · intro s b p hpc
-      simp only [hpc, fvSite, bne_eq_false_iff_eq] at h2
-      exact h2
+      simp only [hpc] at h2
+      rcases split s fr.early h2 with h3 | h3
+      · exact Or.inl h3
+      · exact Or.inr h3.2
 
 /-- once the `…WithContext` call has returned, what it returned does not change -/
 theorem ret_stable (F : RunIdFacts) (cs : List Choice) (σ : St) (h : σ.watching = false) :
